@@ -362,3 +362,53 @@ def feasible_mask(A, b, R, X):
     lin = np.all(X @ A.T == b[None, :], axis=1) if len(b) else np.ones(len(X), dtype=bool)
     quad = np.einsum("ki,ij,kj->k", X, R, X) == 0 if X.shape[1] else np.ones(len(X), dtype=bool)
     return lin & quad
+
+
+# ---------------------------------------------------------------- walk checker on the real object
+def walk_valid(rp, x):
+    """Independent check of the C07 right-hand side on a real SequenceBasedRoutingProblem `rp`
+    (max_vehicles, max_sequence_length set; L >= 3, depot set through the class) and a vector `x` over
+    its variables.  Returns (True, "") iff x is binary and the assignment it encodes -- tuple (v, s, n)
+    is occupied iff it is a variable with x = 1, or it is not a variable and is the depot at the first
+    or last position -- gives every vehicle exactly one node at every position, starting and ending at
+    the depot, moving only along existing arcs (depot stay = depot self-arc), never leaving the depot
+    again once back (positions >= 1), with every customer visited exactly once overall.
+    Otherwise (False, reason).  Uses only rp's index lookup (get_var_index), arc keys and sizes; it does
+    not read fixed_values or any constraint matrix."""
+    V, L, N = int(rp.max_vehicles), int(rp.max_sequence_length), len(rp.nodes)
+    n = int(rp.get_num_variables())
+    x = [z for z in np.asarray(x).ravel()]
+    if len(x) != n:
+        return False, f"vector has {len(x)} entries, the model has {n} variables"
+    for k, z in enumerate(x):
+        if z != 0 and z != 1:
+            return False, f"x[{k}] = {z} is not binary"
+    if L < 2 or N < 1:
+        return False, "no walk exists with fewer than two positions or without a depot"
+    arcset = set(rp.arcs.keys())
+    visits = [0] * N
+    for v in range(V):
+        walk = []
+        for s in range(L):
+            here = []
+            for node in range(N):
+                k = rp.get_var_index(v, s, node)
+                occ = (x[int(k)] == 1) if k is not None else (node == 0 and s in (0, L - 1))
+                if occ:
+                    here.append(node)
+            if len(here) != 1:
+                return False, f"vehicle {v} occupies nodes {here} at position {s}"
+            walk.append(here[0])
+        if walk[0] != 0 or walk[-1] != 0:
+            return False, f"vehicle {v} walk {walk} does not start and end at the depot"
+        for s in range(L - 1):
+            if (walk[s], walk[s + 1]) not in arcset:
+                return False, f"vehicle {v} moves {walk[s]} -> {walk[s + 1]} at position {s}, which is not an arc"
+            if s >= 1 and walk[s] == 0 and walk[s + 1] != 0:
+                return False, f"vehicle {v} leaves the depot again at position {s}: {walk}"
+        for node in walk:
+            visits[node] += 1
+    for c in range(1, N):
+        if visits[c] != 1:
+            return False, f"customer {c} is visited {visits[c]} times"
+    return True, ""
